@@ -73,7 +73,7 @@ AllPorts == {"clear", "obf"}
 FullSpace ==
   [ports: SUBSET AllPorts,
    friends: {{}, {"f1"}, {"f1", "f2"}},
-   liked: {{}, {"l1"}}, hated: {{}, {"h1"}},
+   liked: {{}, {"l1"}}, hated: {{}, {"h1"}, {"h1", "l1"}},   \* the lists are independent: "l1" may be in both
    favs: {{}, {"r1"}, {"r1", "r2"}},
    autoJoin: BOOLEAN, invites: BOOLEAN, reconnect: BOOLEAN,
    shares: {<<"0", "0">>, <<"2", "2">>, <<"4", "4">>}]      \* 0, 1, 2 shared directories
@@ -84,7 +84,7 @@ V(p, fr, li, ha, fa, aj, inv, rc, sh) ==
 
 \* every setting takes each of its values at least once, favourites x autoJoin all four ways
 QuickSpace == {
-  V({"clear", "obf"}, {"f1", "f2"}, {"l1"}, {"h1"}, {"r1", "r2"}, TRUE,  TRUE,  TRUE,  <<"2", "2">>),
+  V({"clear", "obf"}, {"f1", "f2"}, {"l1"}, {"h1", "l1"}, {"r1", "r2"}, TRUE,  TRUE,  TRUE,  <<"2", "2">>),
   V({"clear"},        {"f1"},       {},     {"h1"}, {"r1"},       FALSE, FALSE, TRUE,  <<"0", "0">>),
   V({"obf"},          {},           {"l1"}, {},     {},           TRUE,  FALSE, FALSE, <<"4", "4">>),
   V({},               {"f1"},       {},     {},     {"r1"},       TRUE,  TRUE,  FALSE, <<"2", "2">>),
@@ -92,7 +92,7 @@ QuickSpace == {
   V({"clear"},        {"f1", "f2"}, {"l1"}, {"h1"}, {"r1", "r2"}, FALSE, FALSE, FALSE, <<"4", "4">>) }
 
 TinySpace == {
-  V({"clear", "obf"}, {"f1"}, {"l1"}, {"h1"}, {"r1"}, TRUE,  TRUE,  TRUE, <<"2", "2">>),
+  V({"clear", "obf"}, {"f1"}, {"l1"}, {"h1", "l1"}, {"r1"}, TRUE,  TRUE,  TRUE, <<"2", "2">>),
   V({"clear"},        {"f1"}, {},     {},     {"r1"}, FALSE, FALSE, TRUE, <<"0", "0">>) }
 
 ----------------------------------------------------------------------------
